@@ -453,4 +453,128 @@ theorem toNum_eq_scriptNum (b : Bytes) (minimal : Bool) (maxSize : Nat) :
         simp [this, Except.toOption, decodeNum_eq_setVch]
 
 
+/-! ### `encode_num` is `CScriptNum::serialize` -/
+
+theorem magnitudeBytes_eq (j : Nat) : ∀ (fuel n : Nat), n ≤ fuel → n < 256 ^ j → (j = 0 ∨ 256 ^ (j - 1) ≤ n) →
+    Core.magnitudeBytes fuel n = leBytes j n := by
+  induction j with
+  | zero =>
+    intro fuel n _ h _
+    have : n = 0 := by simpa using h
+    subst this
+    cases fuel <;> simp [Core.magnitudeBytes, leBytes]
+  | succ j ih =>
+    intro fuel n hf hlt hlow
+    have hp := pow_256_pos j
+    have hge : 256 ^ j ≤ n := by
+      rcases hlow with h | h
+      · omega
+      · simpa using h
+    cases fuel with
+    | zero => omega
+    | succ f =>
+      have hn : n ≠ 0 := by omega
+      simp only [Core.magnitudeBytes, hn, if_false, leBytes]
+      congr 1
+      apply ih
+      · omega
+      · rw [pow256_succ] at hlt; omega
+      · by_cases hj : j = 0
+        · left; exact hj
+        · right
+          have : 256 ^ j = 256 * 256 ^ (j - 1) := by
+            have : j = (j - 1) + 1 := by omega
+            conv => lhs; rw [this, pow256_succ]
+          omega
+
+theorem leBytes_add_mul (k n c : Nat) : leBytes k (n + c * 256 ^ k) = leBytes k n := by
+  induction k generalizing n c with
+  | zero => rfl
+  | succ k ih =>
+    simp only [leBytes]
+    have e : c * 256 ^ (k + 1) = 256 * (c * 256 ^ k) := by
+      rw [pow256_succ]; rw [← Nat.mul_assoc, Nat.mul_comm c 256, Nat.mul_assoc]
+    rw [e]
+    have h1 : (n + 256 * (c * 256 ^ k)) % 256 = n % 256 := by omega
+    have h2 : (n + 256 * (c * 256 ^ k)) / 256 = n / 256 + c * 256 ^ k := by omega
+    rw [h1, h2, ih]
+
+theorem setLast_snoc (a : Bytes) (x v : UInt8) : Core.setLast (a ++ [x]) v = a ++ [v] := by
+  induction a with
+  | nil => rfl
+  | cons y ys ih =>
+    cases ys with
+    | nil => simp [Core.setLast]
+    | cons z zs => simpa [Core.setLast] using ih
+
+/-- `encode_num` writes what `CScriptNum::serialize` writes, for every integer -/
+theorem encodeNumRaw_eq_serialize (i : Int) : encodeNumRaw i = Core.scriptNumSerialize i := by
+  unfold encodeNumRaw Core.scriptNumSerialize
+  by_cases h0 : i = 0
+  · simp [h0]
+  · simp only [h0, if_false]
+    have hpos : 0 < i.natAbs := by omega
+    generalize hmag : i.natAbs = mag at *
+    obtain ⟨k, hk, hlt, hlow⟩ := encode_size' mag hpos
+    rw [hk, two_pow_top]
+    have hp := pow_256_pos k
+    by_cases hA : 256 ^ k ≤ mag
+    · -- the magnitude fills k+1 bytes and leaves the sign bit free
+      have hm : Core.magnitudeBytes mag mag = leBytes (k + 1) mag :=
+        magnitudeBytes_eq (k + 1) mag mag (Nat.le_refl _) (by rw [pow256_succ]; omega) (Or.inr (by simpa using hA))
+      rw [hm, leBytes_succ_snoc k mag, lastByte_append_singleton]
+      have q : mag / 256 ^ k < 128 := by
+        apply Nat.div_lt_of_lt_mul; rw [Nat.mul_comm]; exact hlt
+      have hb : (UInt8.ofNat (mag / 256 ^ k % 256)).toNat = mag / 256 ^ k := by
+        simp [UInt8.toNat_ofNat']; omega
+      have hnot : ¬ (UInt8.ofNat (mag / 256 ^ k % 256)).toNat ≥ 128 := by rw [hb]; omega
+      simp only [hnot, if_false]
+      by_cases hn : i < 0
+      · simp only [hn, if_true]
+        rw [setLast_snoc, leBytes_succ_snoc k (mag + 128 * 256 ^ k)]
+        rw [leBytes_add_mul k mag 128, Nat.add_mul_div_right _ _ hp, hb]
+        congr 2
+        have : (mag / 256 ^ k + 128) % 256 = mag / 256 ^ k + 128 := by omega
+        rw [this]
+      · simp only [hn, if_false, Nat.add_zero]
+        exact leBytes_succ_snoc k mag
+    · -- the top bit of the magnitude is taken: one more byte carries the sign
+      have hk1 : 1 ≤ k := by
+        cases k with
+        | zero => simp at hA; omega
+        | succ _ => omega
+      have hl : 128 * 256 ^ (k - 1) ≤ mag := by
+        rcases hlow with h | h
+        · omega
+        · exact h
+      have hpk : 256 ^ k = 256 * 256 ^ (k - 1) := by
+        have : k = (k - 1) + 1 := by omega
+        conv => lhs; rw [this, pow256_succ]
+      have hp1 := pow_256_pos (k - 1)
+      have hm : Core.magnitudeBytes mag mag = leBytes k mag :=
+        magnitudeBytes_eq k mag mag (Nat.le_refl _) (by omega) (Or.inr (by omega))
+      have hks : leBytes k mag = leBytes (k - 1) mag ++ [UInt8.ofNat (mag / 256 ^ (k - 1) % 256)] := by
+        have : k = (k - 1) + 1 := by omega
+        conv => lhs; rw [this]
+        exact leBytes_succ_snoc (k - 1) mag
+      have q1 : mag / 256 ^ (k - 1) < 256 := by
+        apply Nat.div_lt_of_lt_mul; rw [Nat.mul_comm]; omega
+      have q2 : 128 ≤ mag / 256 ^ (k - 1) := by
+        apply (Nat.le_div_iff_mul_le hp1).mpr; omega
+      have hb : (UInt8.ofNat (mag / 256 ^ (k - 1) % 256)).toNat = mag / 256 ^ (k - 1) := by
+        simp [UInt8.toNat_ofNat']; omega
+      rw [hm]
+      have hlast : (lastByte (leBytes k mag)).toNat ≥ 128 := by
+        rw [hks, lastByte_append_singleton, hb]; exact q2
+      simp only [hlast, if_true]
+      rw [leBytes_succ_snoc]
+      have hq0 : mag / 256 ^ k = 0 := Nat.div_eq_of_lt (by omega)
+      by_cases hn : i < 0
+      · simp only [hn, if_true]
+        rw [leBytes_add_mul k mag 128, Nat.add_mul_div_right _ _ hp, hq0]
+        rfl
+      · simp only [hn, if_false, Nat.add_zero, hq0]
+        rfl
+
+
 end Btc.Script
